@@ -354,12 +354,17 @@ def install_seams(sim: Sim):
     import time as _time
 
     # the clock: every reader of time in the simulated process sees the virtual clock
+    # The simulated process was "started" when the package was imported (in the pristine parent): its clock
+    # continues from there, so that a value read at import time (a module-level `started = time.monotonic()`)
+    # and the simulated present belong to one time line.  0.5 s = interpreter start-up.
+    from . import exec as _ex
+    mono0, wall0 = _ex.T_IMPORT[0] + 0.5, _ex.T_IMPORT[1] + 0.5
     threading.Timer = SimTimer
-    _time.time = lambda: _EPOCH + SIM.vtime
-    _time.monotonic = lambda: SIM.vtime
-    _time.perf_counter = lambda: SIM.vtime
-    _time.time_ns = lambda: int((_EPOCH + SIM.vtime) * 1e9)
-    _time.monotonic_ns = lambda: int(SIM.vtime * 1e9)
+    _time.time = lambda: wall0 + SIM.vtime
+    _time.monotonic = lambda: mono0 + SIM.vtime
+    _time.perf_counter = lambda: mono0 + SIM.vtime
+    _time.time_ns = lambda: int((wall0 + SIM.vtime) * 1e9)
+    _time.monotonic_ns = lambda: int((mono0 + SIM.vtime) * 1e9)
 
     def _sleep(seconds):
         SIM.event("sleep", seconds=float(seconds))
@@ -900,6 +905,13 @@ def child_main(root: str, ops: list, seed: int, opts: dict | None = None) -> dic
             resource.setrlimit(resource.RLIMIT_NOFILE, (min(hard, used + int(opts["nofile_headroom"])), hard))
         except Exception:  # noqa: BLE001
             pass
+    if opts.get("log_level"):
+        # the embedding application configured logging for the package (level only; no handlers needed)
+        import logging
+        logging.getLogger("jasm").setLevel(opts["log_level"])
+        for name in list(logging.root.manager.loggerDict):
+            if name.startswith("jasm"):
+                logging.getLogger(name).setLevel(opts["log_level"])
     outcomes = []
     sigs = []
     for i, op in enumerate(ops):
